@@ -150,3 +150,80 @@ Theorem buffered_flush_order_refuted :
   w_of (bs_run (flight msgs) 0 bs_init [] s) <> concat msgs /\
   queue (b_of (bs_run (flight msgs) 0 bs_init [] s)) = [].
 Proof. exact flush_would_block_refutes. Qed.
+
+(* ---- Defragmenter ------------------------------------------------------------------------------ *)
+
+(* For ANY defragmenter (any set of static/dynamic types, in any priority order, bytes
+   non-negative) and ANY sequence of records of defined types fed through the drain/add loop of
+   _getNextRecord: per content type the messages extracted, in order, are exactly the complete
+   messages of that type's concatenated byte stream, and what stays buffered is the unparsed
+   rest -- no message is lost, duplicated or cut differently, however the stream was split
+   into or packed across records. *)
+Theorem defrag_extracts_stream_messages :
+  forall records d, dinv d -> records_ok d records ->
+  exists ms d', feed records d = Ok (ms, d') /\ dinv d' /\ get_message d' = None /\
+  forall t dec, decoder_of t d = Some dec ->
+    msgs_of t ms = fst (parse_stream dec (buffer_of t d ++ stream_for t records)) /\
+    buffer_of t d' = snd (parse_stream dec (buffer_of t d ++ stream_for t records)).
+Proof. exact feed_spec. Qed.
+
+(* hence: two fragmentations/coalescings of the same per-type streams give the same messages *)
+Theorem defrag_refragment_invariant :
+  forall d records1 records2,
+  dinv d -> records_ok d records1 -> records_ok d records2 ->
+  (forall t, stream_for t records1 = stream_for t records2) ->
+  exists ms1 d1 ms2 d2,
+    feed records1 d = Ok (ms1, d1) /\ feed records2 d = Ok (ms2, d2) /\
+    forall t, defined t d = true -> msgs_of t ms1 = msgs_of t ms2 /\ buffer_of t d1 = buffer_of t d2.
+Proof. exact refragment_invariant. Qed.
+
+(* get_message serves types in priority order *)
+Theorem defrag_priority :
+  forall d t m d', get_message d = Some ((t, m), d') ->
+  exists pre e post, d = pre ++ e :: post /\ e_type e = t /\
+    (forall e', In e' pre -> msg_size (e_dec e') (e_buf e') = None) /\
+    exists n, msg_size (e_dec e) (e_buf e) = Some n /\ m = firstn (Z.to_nat n) (e_buf e) /\
+      d' = pre ++ (e_type e, e_dec e, skipn (Z.to_nat n) (e_buf e)) :: post.
+Proof. exact get_message_priority. Qed.
+
+Theorem defrag_is_empty_spec :
+  forall d, (is_empty d = true <-> forall e, In e d -> e_buf e = []) /\ is_empty (clear_buffers d) = true.
+Proof. exact (fun d => conj (is_empty_spec d) (clear_buffers_empty d)). Qed.
+
+(* the hypotheses are met by the defragmenter TLSRecordLayer builds, and a concrete run *)
+Example tls_defrag_meets_hypotheses : dinv tls_defrag.
+Proof. exact tls_defrag_inv. Qed.
+
+Example defrag_example :
+  feed [(22, [1; 0]); (21, [2]); (22, [0; 1; 9; 2]); (21, [40]); (22, [0; 0; 0])] tls_defrag
+  = Ok ([(22, [1; 0; 0; 1; 9]); (21, [2; 40]); (22, [2; 0; 0; 0])],
+        [(20, Static 1, []); (21, Static 2, []); (22, Dynamic 1 3, [])]).
+Proof. vm_compute. reflexivity. Qed.
+
+(* ---- AsyncStateMachine ------------------------------------------------------------------------- *)
+From TV Require Import Model.C14_AsyncSM Proofs.C14_AsyncSM.
+
+(* driving an operation through AsyncStateMachine = running the generator to completion: for ANY
+   operation that yields only 0/1 (any number of suspensions) and ANY sequence of read/write
+   events of that length, next() is called once per event, no exception arises, completion is
+   reported exactly once and the machine is idle again *)
+Theorem asm_runs_generator_to_completion :
+  forall ys evs, all01 ys = true -> length evs = length ys -> forallb is_io evs = true ->
+  snd (asm_trace (SetHandshake (yields01 ys) :: evs) asm_idle) = asm_idle /\
+  no_exn (fst (asm_trace (SetHandshake (yields01 ys) :: evs) asm_idle)) /\
+  events (fst (asm_trace (SetHandshake (yields01 ys) :: evs) asm_idle)) = [EConnect].
+Proof. exact asm_handshake_completes. Qed.
+
+(* single active operation: starting another one while one is active is refused *)
+Theorem asm_single_active :
+  forall m g, 0 < active_ops m ->
+  asm_call (SetHandshake g) m = fail XAssert /\
+  asm_call (SetClose g) m = fail XAssert /\
+  asm_call (SetWrite g) m = fail XAssert.
+Proof. exact single_active. Qed.
+
+Example asm_example :
+  fst (asm_trace [SetHandshake (yields01 [0; 1]); InRead []; InWrite; InRead [GY 0; GY 77]; InWrite] asm_idle)
+  = [([], None, Some true, Some false); ([], None, Some false, Some true);
+     ([EConnect], None, None, None); ([], None, Some true, Some false); ([ERead 77], None, None, None)].
+Proof. vm_compute. reflexivity. Qed.
